@@ -65,3 +65,19 @@ Definition racy_fields (multi : list string) (fs : list fact) : list string :=
 Definition all_protected (multi : list string) (fs : list fact) (skip : list string) : bool :=
   forallb (fun a => mem (f_field a) skip ||
              forallb (fun b => negb (unprotected_pair multi a b)) fs) fs.
+
+(* writes made while the only hold on some lock is a SHARED one (RLock): other
+   RLock holders - possibly reaching the same data through another field, e.g.
+   the owner of a vacuumed map - are not excluded *)
+Definition write_under_rlock (f : fact) : bool :=
+  match f_kind f with
+  | Wr => existsb (fun l => negb (mem l (f_xlocks f))) (f_slocks f)
+  | _ => false
+  end.
+
+Definition writes_under_rlock (fs : list fact) : list string :=
+  dedup (flat_map (fun f => if write_under_rlock f then [f_field f] else []) fs).
+
+(* the atomic-step report: every listed body is a single critical section *)
+Definition atomic_ok (r : list (string * string)) : bool :=
+  forallb (fun p => String.eqb (snd p) "") r.
